@@ -294,7 +294,7 @@ def run_group(cmd, cwd, env, timeout):
 
 
 def parse_native(text):
-    res = {"fails": [], "reach": [], "notes": [], "panic": None, "done": False, "timeout": False, "assume_fail": False, "raw": text[-1500:]}
+    res = {"fails": [], "reach": [], "notes": [], "panic": None, "done": False, "timeout": False, "assume_fail": False, "raw": text[-1500:], "marks": []}
     for line in text.splitlines():
         if line.startswith("ASSERT-FAIL: "):
             res["fails"].append(line[len("ASSERT-FAIL: "):])
@@ -312,6 +312,8 @@ def parse_native(text):
             res["assume_fail"] = True
         elif line.startswith("REPLAY-DONE"):
             res["done"] = True
+        elif line.startswith("SYMONCE:") and len(res["marks"]) < 5:
+            res["marks"].append(line)  # printed by an instrumented scratch copy of a generated parser (C06 confirmation)
     return res
 
 
